@@ -49,6 +49,8 @@ ALPHABET: List[Tuple[str, int]] = [
     ("1st", 0), ("_1st", 0), ("append", 0), ("keys", 0), ("get", 0), ("copy", 0), ("_item_dict", 0),
     ("a_3", 0), ("pop", 0), ("a_2", 1), ("import", 0), ("2", 0), ("items", 0), ("b", 1),
     ("__reserved__", 0), ("__reserved__", 1), ("__len__", 0), ("__x", 0), ("_", 0), ("__dict__", 0),
+    # attributes of the list class whose value is None / falsy
+    ("__hash__", 0), ("__hash__", 1), ("__doc__", 0), ("__weakref__", 0), ("__module__", 0),
 ]
 
 SYS_OPS: List[List[Any]] = [
@@ -83,10 +85,42 @@ def pool_of(rs: int, index: int) -> int:
 NIL = None
 
 
+REAL_LISTS: List[Any] = []
+
+
 def worker_init() -> None:
     global NIL
+    import os
+
+    import odxtools
     from odxtools.nameditemlist import NamedItemList
+
+    from ..can.world import quiet
+    from ..core import worker
     NIL = NamedItemList
+    # name lists of a real database: their items are library elements with back references (a table row refers to
+    # its table, which owns the list of its rows), i.e. the list is reachable from its own items
+    with quiet():
+        db = odxtools.load_pdx_file(os.path.join(worker.repo_dir(), "examples", "somersault.pdx"))
+    STATE_DB.append(db)
+    for layer in db.diag_layers:
+        ddds = layer.diag_layer_raw.diag_data_dictionary_spec
+        cands = [layer.services, layer.diag_layer_raw.requests, layer.diag_layer_raw.positive_responses]
+        if ddds is not None:
+            cands += [ddds.data_object_props, ddds.structures, ddds.tables, ddds.end_of_pdu_fields, ddds.muxs]
+            for t in ddds.tables:
+                cands.append(t.table_rows)
+        for rq in list(layer.diag_layer_raw.requests)[:3]:
+            cands.append(rq.parameters)
+        for c in cands:
+            if isinstance(c, NamedItemList) and len(c) > 0 and len(REAL_LISTS) < 60:
+                REAL_LISTS.append(c)
+    # (lists of diagnostic layers are left out: on the pinned tree a layer cannot be deep-copied at all -
+    # HierarchyElement.__deepcopy__ assigns to a read-only property - which is a defect of the item class, not
+    # of the list and not of any listed property; see DESIGN.md section 20)
+
+
+STATE_DB: List[Any] = []
 
 
 # ------------------------------------------------------------------ generation
@@ -157,6 +191,13 @@ def gen(rs: int, index: int, tier: str) -> Dict[str, Any]:
             ops.append([li, "extend_raise", [r.choice(alpha) for _ in range(r.randint(0, 3))]])
         elif k == "inspect":
             ops.append([li, "inspect"])
+    # now and then: copy / deep-copy / pickle of the name lists of a real database and of single items of them
+    rr = S.rng("real")
+    if rr.random() < 0.03:
+        for _ in range(rr.randint(1, 2)):
+            ops.insert(rr.randint(0, len(ops)), [0, "real", rr.randint(0, 10**6),
+                                                 rr.choice(["pickle_list", "deepcopy_list", "pickle_item", "deepcopy_item",
+                                                            "copy_list", "pickle_list", "pickle_item"])])
     return {"ops": ops, "systematic": False}
 
 
@@ -411,6 +452,29 @@ def execute(trace: Dict[str, Any]) -> Dict[str, Any]:
                     new = NIL(src)
                     lists.append(new)
                     models.append(list(its))
+                elif kind == "real":
+                    src = REAL_LISTS[op[2] % len(REAL_LISTS)]
+                    how = op[3]
+                    probes["real_" + how] = probes.get("real_" + how, 0) + 1
+                    if how.endswith("_item"):
+                        it0 = src[op[2] % len(src)]
+                        it1 = copy.deepcopy(it0) if how == "deepcopy_item" else pickle.loads(pickle.dumps(it0))
+                        if it1.short_name != it0.short_name or type(it1) is not type(it0):
+                            raise Violation("real-item-copy-differs", {"how": how, "cls": type(it0).__name__})
+                    else:
+                        new = (src.copy() if how == "copy_list" else copy.deepcopy(src) if how == "deepcopy_list"
+                               else pickle.loads(pickle.dumps(src)))
+                        if type(new) is not type(src) or list(new.keys()) != list(src.keys()) or \
+                                [x.short_name for x in new] != [x.short_name for x in src]:
+                            raise Violation("real-list-copy-differs", {"how": how, "cls": type(src[0]).__name__})
+                        check_list(new, list(new), True, -1)
+                        # the copy is a working list: take an item out and put it back
+                        x0 = new.pop()
+                        check_list(new, list(new), True, -1)
+                        new.insert(0, x0)
+                        check_list(new, list(new), True, -1)
+                        if new[0] is not x0 or len(new) != len(src):
+                            raise Violation("real-list-copy-differs", {"how": how, "after": "pop/insert"})
                 elif kind == "inspect":
                     # read-only use by a client (debugger, REPL completion, logging): nothing may change
                     names = list(nil.keys())
